@@ -52,7 +52,7 @@ type Backend struct {
 
 // Route has a duration and a format-specific tag inside the element.
 type Route struct {
-	PathPrefix string        `dials:"path-prefix" yaml:"path_prefix_yaml,omitempty" toml:"path_prefix_toml,omitempty"`
+	PathPrefix string        `dials:"path-prefix" yaml:"path_prefix_yaml,omitempty"`
 	RetryAfter time.Duration `dials:"retry_after"`
 }
 
